@@ -262,6 +262,7 @@ def _process_properties(  # noqa: PLR0912, PLR0911
             merged_prop.header = f"Found conflicting properties named {new_prop.name} when creating {class_name}"
             return merged_prop
 
+        renamed = False
         for other_prop in properties.values():
             if other_prop.name == merged_prop.name:
                 continue  # Same property, probably just got merged
@@ -270,8 +271,18 @@ def _process_properties(  # noqa: PLR0912, PLR0911
             naming_error = _resolve_naming_conflict(merged_prop, other_prop, config)
             if naming_error is not None:
                 return naming_error
+            renamed = True
 
         properties[merged_prop.name] = merged_prop
+        if renamed:  # The fallback names must not collide with any third property either
+            by_python_name: dict[str, Property] = {}
+            for prop in properties.values():
+                clash = by_python_name.setdefault(prop.python_name, prop)
+                if clash is not prop:
+                    return PropertyError(
+                        header="Conflicting property names",
+                        detail=f"Properties {clash.name} and {prop.name} have the same python_name",
+                    )
         return None
 
     unprocessed_props: list[tuple[str, oai.Reference | oai.Schema]] = (
